@@ -14,7 +14,7 @@ TECHNIQUE = ('property-based testing: per-category generators of violating peer 
              'RFC error code) after generated valid prefixes, plus a GOAWAY-accounting monitor over mutated traffic')
 RULE = ('cases: (a) a valid peer-model prefix that opens and closes streams, then one violating input drawn from '
         '~45 generators grouped by RFC category (FRAME_SIZE_ERROR, FLOW_CONTROL_ERROR, STREAM_CLOSED, '
-        'COMPRESSION_ERROR, ENHANCE_YOUR_CALM, PROTOCOL_ERROR), oracle: the call raises ProtocolError, appends '
+        'COMPRESSION_ERROR, ENHANCE_YOUR_CALM, PROTOCOL_ERROR; among them payload/content-length mismatches on request, response and pushed streams, optionally with enlarged windows, and any violation right behind the acknowledgement that raises our MAX_FRAME_SIZE in the same call), oracle: the call raises ProtocolError, appends '
         'exactly one GOAWAY whose code equals the exception code and the category code and whose last-stream-id is '
         'the highest peer-opened id, and every later raising receive_data on the closed connection again appends '
         'exactly one GOAWAY carrying its exception code; (b) mutated traffic as in C17 with the accounting monitor only; non-trivial = '
@@ -46,6 +46,8 @@ class Ctx:
         self.opens = None               # id opened by the violating input itself, if any
         self.ended_sid = None           # a peer-initiated / promised stream that ended normally in both directions
         self.frame_limit = 16384        # our MAX_FRAME_SIZE once every acknowledgement in the input has been seen
+        self.big_windows = False        # connection window and INITIAL_WINDOW_SIZE enlarged (acknowledged) in the prefix
+        self.pushed_reserved = []       # client: promised streams whose response has not started
 
 
 def v_oversize_frame(c):
@@ -292,7 +294,34 @@ def v_headers_after_end_stream(c):
     return wire.headers(c.ended_sid, c.enc.encode(hs), end_stream=es)
 
 
+def v_body_length(c):
+    """A message whose payload differs from its declared content-length (malformed, RFC 7540 s8.1.2.6): too long
+    (noticed with the frame that exceeds it) or too short (noticed at END_STREAM); on a new request stream at a
+    server, on the awaited response or on a pushed response at a client.  With the windows enlarged in the prefix
+    the body may be larger than the default window and still inside what we advertised."""
+    big = c.big_windows and c.ch.bool()
+    declared = 70000 if big else c.ch.pick([0, 3, 5, 1000])
+    if c.client:
+        if c.pushed_reserved and c.ch.bool():
+            sid = c.ch.pick(c.pushed_reserved)
+        elif c.open_sid:
+            sid = c.open_sid
+        else:
+            return None
+        out = wire.headers(sid, c.enc.encode([(b':status', b'200'), (b'content-length', b'%d' % declared)]))
+    else:
+        sid = c.next_sid
+        c.opens = sid
+        out = wire.headers(sid, c.enc.encode(POST + [(b'content-length', b'%d' % declared)]))
+    if big:
+        return out + b''.join(wire.data(sid, b'b' * 16000) for _ in range(5))        # 80000 > 70000
+    if declared and c.ch.bool():
+        return out + wire.data(sid, b'b' * (declared - 1), end_stream=True)           # too short
+    return out + wire.data(sid, b'b' * (declared + 1), end_stream=c.ch.bool())        # too long
+
+
 VIOLATIONS = [
+    ('body-differs-from-content-length', P, v_body_length),
     ('oversize-frame', FS, v_oversize_frame), ('ping-length', FS, v_ping_len), ('rst-length', FS, v_rst_len),
     ('window-update-length', FS, v_wu_len), ('priority-length', FS, v_prio_len),
     ('settings-length', FS, v_settings_len), ('settings-ack-with-payload', FS, v_settings_ack_payload),
@@ -431,8 +460,20 @@ def run_violation(r, ch, client, name):
         c.open_sid = data_sid
     if name == 'data-before-response-headers':
         c.open_sid = next((sid for sid, kind in steps if kind == 0), None)
-    if name in ('informational-with-end-stream',):
+    if name in ('informational-with-end-stream', 'body-differs-from-content-length'):
         c.open_sid = next((sid for sid, kind in steps if kind == 0), None)
+    if client:
+        promised = [2 * (i + 1) for i in range(sum(1 for _, kind in steps if kind == 3))]
+        c.pushed_reserved = [p_ for p_ in promised if (p_, 'pushed-and-ended') not in steps]
+    if name == 'body-differs-from-content-length' and ch.chance(100):
+        # the application has enlarged the connection window and its INITIAL_WINDOW_SIZE, and the peer has
+        # acknowledged: streams that exist already - promised ones included - can take more than 65535 bytes
+        o1 = ep.call('increment_flow_control_window', 100000)
+        o2 = ep.call('update_settings', {wire.S_INITIAL_WINDOW_SIZE: 131072})
+        o3 = ep.recv(wire.settings(ack=True))
+        if o1.ok and o2.ok and o3.ok:
+            c.big_windows = True
+            r.labels.add('windows-enlarged-in-prefix')
     ack_first = b''
     if ch.chance(56):
         # our own MAX_FRAME_SIZE has been raised and the peer's acknowledgement arrives in the same receive_data
